@@ -34,12 +34,14 @@ type T interface {
 }
 
 type Config struct {
-	FeePpk     uint
-	Limits     mint.MintLimits
-	MPP        bool
-	FeeMode    lnmodel.FeeMode
-	FeeConst   uint64
-	WithServer bool
+	FeePpk   uint
+	Limits   mint.MintLimits
+	MPP      bool
+	FeeMode  lnmodel.FeeMode
+	FeeConst uint64
+	// LNPermissive: the Lightning backend answers invoice requests for absurd amounts instead of refusing them
+	LNPermissive bool
+	WithServer   bool
 	// ReadsViaHTTP (with WithServer): state checks and restores go through the HTTP handler instead of the Go API
 	ReadsViaHTTP bool
 	// ViaCLN: the mint talks to the Lightning model through the repository's Core Lightning adapter and an
@@ -149,6 +151,7 @@ func NewOn(t T, cfg Config, net *lnmodel.Network) *World {
 	}
 	w.LN = net.NewBackend(name)
 	w.LN.FeeMode, w.LN.FeeConst = cfg.FeeMode, cfg.FeeConst
+	w.LN.Permissive = cfg.LNPermissive
 	w.M = newModel()
 
 	// pre-seed the database with a fixed seed so that reference keys can be cached across cases
